@@ -4,10 +4,10 @@ import os
 import core
 
 
-def write_cfg(name, maxlen, profile, envset):
+def write_cfg(name, maxlen, profile, envset, extra="NoExtra"):
     path = os.path.join(core.SPEC, name)
     with open(path, "w") as f:
-        f.write(f"SPECIFICATION Spec\nCONSTANTS MaxLen = {maxlen}\n Profile = \"{profile}\"\n EnvSet = \"{envset}\"\nCHECK_DEADLOCK FALSE\n")
+        f.write(f"SPECIFICATION Spec\nCONSTANTS MaxLen = {maxlen}\n Profile = \"{profile}\"\n EnvSet = \"{envset}\"\n ExtraCheck <- {extra}\nCHECK_DEADLOCK FALSE\n")
     return name
 
 
